@@ -381,7 +381,7 @@ func init() {
 				parseStream(rep, d, proto, stream, segs, intents, fmt.Sprintf("pipeline-%d/%d", i, s))
 				rep.Evaluations++
 				rep.Validated++
-				distinct[fmt.Sprintf("%s/%s/%d", proto, strings.Join(kinds, ","), len(segs) > 0)] = true
+				distinct[fmt.Sprintf("%s/%s/%v", proto, strings.Join(kinds, ","), len(segs) > 0)] = true
 				if enoughDivergences(rep, 3) || len(rep.Violations) > 5 {
 					rep.Distinct = len(distinct)
 					return
